@@ -149,8 +149,11 @@ def check_plaquettes(l, tol=1e-9):
         if np.max(np.abs(vsum)) > 1e-9:
             fails.append(f"plaquette {n}: directed edge vectors sum to {vsum}")
         cx, cy = g["centroid"]
-        if abs(float(cx) - p.center[0]) > tol or abs(float(cy) - p.center[1]) > tol:
-            fails.append(f"plaquette {n}: center {p.center} is not the area centroid ({float(cx)}, {float(cy)})")
+        # the shoelace formula in doubles on coordinates of size 1: every cross term carries an absolute rounding error of about 1e-16 whatever the size of
+        # the polygon, so the centroid of a polygon of area A is accurate to about k * 1e-18 / A in practice (measured: at most 0.3 * 1e-17 k / A over 2500 clustered plaquettes; the bound used is 4e-17 k / A); a centre further off than that is not the area centroid
+        ctol = max(tol, 4e-17 * k / (float(g["area2"]) / 2))
+        if abs(float(cx) - p.center[0]) > ctol or abs(float(cy) - p.center[1]) > ctol:
+            fails.append(f"plaquette {n}: center {p.center} is not the area centroid ({float(cx)}, {float(cy)}) of its polygon (area {float(g['area2']) / 2:.3e}, tolerance {ctol:.1e})")
     if len(set(got)) != len(got):
         fails.append("a plaquette is reported twice")
     missing = set(legit) - set(got)
